@@ -9,6 +9,12 @@
    invariant of C02.  Together: parse_no_panic and parse_terminates, i.e. parse returns Ok or Err for every
    valid UTF-8 input and every limit that fits the u32 field.  (The one site that could not be excluded,
    ShortRange::from in resolve_namespaces, was a genuine defect: D17, repaired.)
+   The panic sites of the SOURCE that the model does not represent (it uses total functions there: slicing in
+   as_bytes / starts_with / process_cdata, from_utf8().unwrap() in skip_string, the debug assertions of push_ns and
+   of the range conversion, the swallowed advance in try_consume_byte; found by the model audit) are given strict
+   variants that DO panic there (Proofs/StrictModel.v) and proved unreachable: the builder sites over a whole run
+   (site_builder_run: the strict builder never panics), the others pointwise / on every constructible stream; the
+   table site -> theorem is in the header of Proofs/Strict.v.
    Statements are pinned here (copied verbatim from the proof files by tools/pin_props.py);
    each is re-proved by `exact` and followed by Print Assumptions. *)
 From Coq Require Import Ascii String.
@@ -16,7 +22,7 @@ From Coq Require Import List NArith Bool PeanoNat Sorted.
 Import ListNotations.
 From RX Require Import Generated.
 From RX.Model Require Import Base CharClass Stream Tokenizer Doc Builder Parse Api.
-From RX.Proofs Require Import TermStream TermUtf8 TermParse TermFinal NoPanicUtf8 NoPanicStream NoPanicTokenizer NoPanicBuilder NoPanicBuilderCtx NoPanicText NoPanicParse NoPanicFinal.
+From RX.Proofs Require Import TermStream TermUtf8 TermParse TermFinal NoPanicUtf8 NoPanicStream NoPanicTokenizer NoPanicBuilder NoPanicBuilderCtx NoPanicText NoPanicParse NoPanicFinal StrictModel StrictTok StrictStream StrictBuilder StrictApi Strict.
 Open Scope N_scope.
 
 (* ---- Proofs/NoPanicFinal.v ---- *)
@@ -30,6 +36,50 @@ Theorem C01_parse_terminates :
   forall text opt, valid_utf8_b text = true -> parse text opt <> OutOfFuel.
 Proof. exact parse_terminates. Qed.
 Print Assumptions C01_parse_terminates.
+
+(* ---- Proofs/Strict.v ---- *)
+Theorem C01_site_builder_run :
+  forall text opt p,
+  valid_utf8_b text = true -> nodes_limit opt <= u32_max -> parse_builder_strict text opt <> Panic p.
+Proof. exact site_builder_run. Qed.
+Print Assumptions C01_site_builder_run.
+
+Theorem C01_site_cdata_unreachable :
+  forall l, valid_utf8_b l = true -> cdata_norm_s l = Ok (cdata_norm l).
+Proof. exact site_cdata_unreachable. Qed.
+Print Assumptions C01_site_cdata_unreachable.
+
+Theorem C01_site_ns_range_unreachable :
+  forall text c, Core text c ->
+  resolve_namespaces_s text c = resolve_namespaces text c.
+Proof. exact site_ns_range_unreachable. Qed.
+Print Assumptions C01_site_ns_range_unreachable.
+
+Theorem C01_site_try_consume_byte_unreachable :
+  forall c s,
+  try_consume_byte_s c s = Ok (try_consume_byte c s).
+Proof. exact site_try_consume_byte_unreachable. Qed.
+Print Assumptions C01_site_try_consume_byte_unreachable.
+
+Theorem C01_site_skip_string_unreachable :
+  forall text p s,
+  In p skip_string_literals -> StreamGen text s ->
+  skip_string_s text p s = skip_string text p s.
+Proof. exact site_skip_string_unreachable. Qed.
+Print Assumptions C01_site_skip_string_unreachable.
+
+Theorem C01_site_advance_until2_unreachable :
+  forall text n1 n2 s, StreamGen text s ->
+  advance_until2_s text n1 n2 s = advance_until2 n1 n2 s.
+Proof. exact site_advance_until2_unreachable. Qed.
+Print Assumptions C01_site_advance_until2_unreachable.
+
+Theorem C01_strict_callback_refines :
+  forall text tok c, valid_utf8_b text = true ->
+  TokOk2 text tok -> Core text c ->
+  token_s text tok c = token_with text (process_text_s text) tok c.
+Proof. exact strict_callback_refines. Qed.
+Print Assumptions C01_strict_callback_refines.
 
 (* ---- Proofs/TermParse.v ---- *)
 Theorem C01_tokenizer_terminates :
@@ -63,7 +113,7 @@ Proof. exact parse_document_terminates. Qed.
 Print Assumptions C01_parse_document_terminates.
 
 (* ---- Proofs/TermUtf8.v ---- *)
-Module G3.
+Module G4.
 Local Notation safe := TermStream.safe.
 Theorem C01_termination_needs_valid_utf8 :
   valid_utf8_b overlong_lt_text = false /\
@@ -73,10 +123,10 @@ Theorem C01_termination_needs_valid_utf8 :
 Proof. exact termination_needs_valid_utf8. Qed.
 Print Assumptions C01_termination_needs_valid_utf8.
 
-End G3.
+End G4.
 
 (* ---- Proofs/NoPanicTokenizer.v ---- *)
-Module G4.
+Module G5.
 Local Notation token := Tokenizer.token.
 Theorem C01_tokenizer_no_panic :
   forall (text : bytes) (C : Type) (ev : token -> C -> res C) (dtd : bool) (c : C) p,
@@ -86,10 +136,10 @@ Theorem C01_tokenizer_no_panic :
 Proof. exact tokenizer_no_panic. Qed.
 Print Assumptions C01_tokenizer_no_panic.
 
-End G4.
+End G5.
 
 (* ---- Proofs/NoPanicParse.v ---- *)
-Module G5.
+Module G6.
 Local Notation TokOk := NoPanicTokenizer.TokOk.
 Theorem C01_token_no_panic :
   forall text tok c p, valid_utf8_b text = true -> Core text c -> NoPanicTokenizer.TokOk text tok ->
@@ -110,4 +160,4 @@ Theorem C01_parse_document_token_no_panic :
 Proof. exact parse_document_token_no_panic. Qed.
 Print Assumptions C01_parse_document_token_no_panic.
 
-End G5.
+End G6.
